@@ -26,6 +26,9 @@ import numpy as np
 
 from harness.core import PropertyCheck, TieBroken, REPO
 from harness.util import Snapshot, close, errname, fr, frs, parse_rats, plist, pmat
+from harness.props import c09_opt as XO
+from harness.props import c09_api as XA
+from harness.props import c09_kern as XK
 
 TINY = float(np.finfo(np.double).tiny)
 GUARD = 33000          # doubles on each side of H: covers any signed-short stale index
@@ -274,6 +277,14 @@ def textbook(name, H, dist=None):
     return None
 
 
+def sfloat(v):
+    """float of an exact rational; values beyond the double range become +-inf instead of raising"""
+    try:
+        return float(v)
+    except OverflowError:
+        return math.inf if v > 0 else -math.inf
+
+
 def dyadic_hist(rng, r, c, zero_p):
     H = np.zeros((r, c))
     for a in range(r):
@@ -330,16 +341,24 @@ def gen_volume(rng, dims, cj, mask_p):
 class C09(PropertyCheck):
     id = "C09"
     title = "Joint histograms and similarity measures match their definitions"
-    lean_modules = ["NipyVerif.Props.C09"]
+    lean_modules = ["NipyVerif.Props.C09", "NipyVerif.Props.C09B", "NipyVerif.Props.C09C", "NipyVerif.Props.C09D",
+                    "NipyVerif.Props.C09E"]
     driver = "Drivers/C09.lean"
-    rule = ("cases from a seeded PRNG: (a) source/target volumes with masks, bin counts, per-voxel dyadic "
-            "target coordinates (free, affine, identity, far outside; boundary values -1, dim, integers) for the "
-            "three interpolation modes and seeds, run through the kernel re-compiled from /repo; (b) "
-            "HistogramRegistration objects (bins, masks, field of view, dyadic voxel transforms, identity "
+    rule = ("cases from a seeded PRNG: (a) source/target volumes with masks, bin counts (up to the end of the signed "
+            "short range), per-voxel dyadic target coordinates (free, affine, identity, far outside; boundary values "
+            "-1, dim, integers) for the three interpolation modes (any positive code = trilinear; seeds incl. the ends "
+            "of the int range), source layouts C / Fortran / strided / reversed / permuted / slice of a 4-D series, "
+            "stale histogram content, arrays the kernel must refuse, run through the kernel re-compiled from /repo; "
+            "(b) HistogramRegistration objects (bins, masks, field of view, dyadic voxel transforms, identity "
             "self-registration, all measures); (c) non-negative dyadic histograms for every measure class; "
-            "(d) clamp / set_fov / L1_moments / prng inputs; (e) small optimisation runs. Non-trivial = at least "
-            "one source voxel contributes, or a histogram with >= 2 non-empty cells, or a non-constant array; "
-            "distinct by full JSON of the case")
+            "(d) clamp / set_fov / L1_moments / prng inputs; (e) optimisation: every optimizer name x every measure x "
+            "start at a local optimum / at a transform an earlier optimisation converged to / near / far, random "
+            "transforms classes, tolerances, iteration limits, callbacks; (f) fmin_steepest on exact rational "
+            "objectives (sums of squares of linear forms, piecewise-linear plateaus and kinks) with the run recorded "
+            "and replayed by the model; (g) configure_optimizer names/keyword sets; (h) finite-difference helpers, "
+            "eval_gradient / eval_hessian / explore, interp / similarity properties, smoothing, verbose optimize. "
+            "Non-trivial = at least one source voxel contributes, or a histogram with >= 2 non-empty cells, or a "
+            "non-constant array, or an optimisation that made at least one pass; distinct by full JSON of the case")
     assumptions = [
         "binary64 arithmetic of the kernel is exact on the generated dyadic coordinates/weights (few significant "
         "bits), so the model's rational arithmetic is the kernel's; cases with non-dyadic coordinates are compared to 1e-9",
@@ -351,14 +370,24 @@ class C09(PropertyCheck):
         "are read from the re-compiled C; prng_double itself is modelled (integer recurrence exact, value to 1e-12)",
         "_registration.pyx cannot be rebuilt here: its two glue functions (_joint_histogram, _L1_moments) are "
         "fingerprinted in the source and replaced by equivalent ctypes glue over the re-compiled C",
-        "'optimisation does not lower the similarity' is a property of SciPy's optimisers and nipy's fmin_steepest: "
-        "oracle only (deterministic objective: pv/tri, or rand with a fixed seed)",
+        "'optimisation does not lower the similarity': proved for nipy's own loop (fmin_steepest, for every objective) "
+        "under the hypothesis that scipy.optimize.brent returns (alpha, f(alpha)) with f(alpha) <= f(0) - checked "
+        "on every recorded run as a certificate (first probe is alpha = 0 with the tracked value, the returned pair "
+        "is a probe no probe beats); for fmin_powell / fmin / fmin_cg / fmin_bfgs it is the hypothesis "
+        "MonotoneOptimizer (result not worse than the start for the cost it was given): oracle on real runs only",
+        "the objective must be a function of the parameters: pv / tri interpolation, or rand with a fixed seed "
+        "(FixedRng); with numpy's Generator the similarity is a random variable and the clause is not checked",
+        "optimizer='ncg': optimize() passes SciPy's Newton-CG no gradient and SciPy refuses (ValueError 'Jacobian is "
+        "required'); the name is not among the documented ones; the refusal is recorded, not reported",
+        "approx_fprime (forward differences, step 1.49e-8) and sqrt in fmin_steepest are parameters: the recorded "
+        "direction only enters the model through 'is the gradient identically zero'",
+        "MI = H(I)+H(J)-H(I,J) and NMI = 2 MI/(H(I)+H(J)) are proved for every additive log where no TINY clamp is "
+        "active on a non-empty cell; NMI's value is compared through the model's exact probabilities with math.log applied by the harness",
         "CC: (cIJ/nonzero(sqrt(vI*vJ)))**2 is modelled as cIJ**2/max(vI*vJ, TINY**2), equal whenever vI*vJ >= 0",
-        "the random-interpolation model carries the guard `sumW > 0` of the proposed fix "
-        "(proposed_fixes/C09-rand-interpolation-guard.patch)",
+        "the random-interpolation model carries the guard `sumW > 0` (in /repo since the fix of the stale-read defect)",
     ]
-    level_note = ("RAND mass/bounds theorems need the sumW>0 guard (proposed fix); MI family up to log; "
-                  "optimise clause oracle-only")
+    level_note = ("MI family up to log (structural theorems for every log); optimise clause proved for fmin_steepest, "
+                  "hypothesis + oracle for SciPy's multivariate optimisers")
 
     # ------------------------------------------------------------------
     def translators(self):
@@ -381,15 +410,17 @@ class C09(PropertyCheck):
         body = "\n".join(l.strip() for l in body.splitlines() if l.strip() and not l.strip().startswith("#"))
         if hashlib.sha1(body.encode()).hexdigest() != "74d96c9074b5b83120dffb4b152d5afb23dd7167":
             raise TieBroken("_registration.pyx glue (_joint_histogram/_L1_moments) differs from the modelled text")
-        return []
+        files, _ = XO.translate(REPO, TieBroken)
+        return files + XK.translate(REPO, TieBroken)
 
     # ------------------------------------------------------------------
     def generate(self, rng, tier):
         from harness import cshim
         cshim.build("registration")     # once, in the parent: workers then only load it
         q = tier == "quick"
-        n_jh, n_reg, n_meas, n_l1, n_prng, n_clamp, n_fov, n_opt = \
-            (700, 90, 260, 120, 30, 160, 60, 6) if q else (9000, 900, 3000, 1200, 200, 1600, 500, 40)
+        n_jh, n_reg, n_meas, n_l1, n_prng, n_clamp, n_fov, n_opt, n_steep, n_cfg, n_agrad, n_api = \
+            (700, 90, 260, 120, 30, 160, 60, 40, 240, 40, 80, 90) if q else \
+            (9000, 900, 3000, 1200, 200, 1600, 500, 600, 4000, 200, 1200, 1200)
         cases = []
         for k in range(n_jh):
             tdims = [rng.choice([1, 2, 2, 3, 3, 4]) for _ in range(3)]
@@ -419,9 +450,21 @@ class C09(PropertyCheck):
                 A = [[rng.choice([0, 0, 1, 1, -1, 0.5, 0.25, 2, -0.5, 0.75]) for _ in range(3)] for _ in range(3)]
                 b = [rng.randrange(-8, 8 * tdims[a]) / 8 for a in range(3)]
                 T = [[sum(A[a][c] * p[c] for c in range(3)) + b[a] for a in range(3)] for p in idx]
-            cases.append({"kind": "jh", "mode": rng.choice(["pv", "tri", "rand"]), "seed": rng.randrange(1, 2 ** 31 - 1),
-                          "ci": ci, "cj": cj, "tdims": tdims, "tgt": tgt, "sshape": sshape, "src": src,
-                          "layout": rng.choice(["C", "C", "F", "strided"]), "T": T, "style": style})
+            seed = rng.randrange(1, 2 ** 31 - 1) if rng.random() < 0.85 else rng.choice([1, 2, 2 ** 31 - 1, 2 ** 31 - 2, 400000])
+            case = {"kind": "jh", "mode": rng.choice(["pv", "tri", "rand"]), "seed": seed,
+                    "ci": ci, "cj": cj, "tdims": tdims, "tgt": tgt, "sshape": sshape, "src": src,
+                    "layout": rng.choice(["C", "C", "F", "F", "strided", "rev", "perm", "view4d"]), "T": T, "style": style}
+            if rng.random() < 0.3:      # any positive `interp` is trilinear
+                case["tricode"] = rng.choice([1, 2, 7, 2 ** 31 - 1, 2 ** 40])
+            if rng.random() < 0.015:    # intensities at the end of the signed short range
+                case["cj"] = 32768
+                case["ci"] = rng.choice([1, 2])
+                case["tgt"] = [(-1 if v < 0 else rng.choice([0, 32767, 32766, 12345])) for v in tgt]
+                case["src"] = [(-1 if v < 0 else v % case["ci"]) for v in src]
+                case["style"] = "free" if style == "identity" else style
+            if rng.random() < 0.06:     # arrays the kernel must refuse (return -1, nothing written)
+                case["refuse"] = rng.choice(["J", "H", "T", "Itype"])
+            cases.append(case)
         for k in range(n_reg):
             shape = [rng.choice([2, 3, 3, 4, 5]) for _ in range(3)]
             same = rng.random() < 0.5
@@ -482,14 +525,24 @@ class C09(PropertyCheck):
                           "corner": [rng.randrange(0, shape[a]) if rng.random() < 0.5 else 0 for a in range(3)],
                           "size": [rng.randrange(1, shape[a] + 2) for a in range(3)],
                           "aff": [rng.choice([1, 2, 0.5, -1, 4]) for _ in range(3)] + [rng.randrange(-16, 16) / 4 for _ in range(3)]})
+        # optimisation clause: every optimizer x every measure x every kind of start, then random ones
+        for rep in range(1 if q else 6):
+            for o in XO.OPTIMIZERS:
+                for sname in XO.OPT_MEASURES:
+                    for sk in XO.START_KINDS:
+                        cases.append(XO.gen_opt(rng, o, sname, sk))
         for k in range(n_opt):
-            cases.append({"kind": "opt", "dseed": rng.randrange(10 ** 6), "n": rng.choice([5, 6]),
-                          "sim": rng.choice(["cc", "cr", "crl1", "mi", "nmi"]),
-                          "interp": rng.choice(["pv", "pv", "tri", "rand"]),
-                          "optimizer": rng.choice(["powell", "simplex", "cg", "bfgs", "steepest"]),
-                          "start": [rng.choice([0.0, 0.5, -0.5, 1.0]) for _ in range(3)],
-                          "ttype": rng.choice(["rigid", "affine", "similarity"]),
-                          "shift": rng.choice([0, 1])})
+            cases.append(XO.gen_opt(rng))
+        for k in range(n_steep):
+            cases.append(XO.gen_steep(rng))
+        for k in range(n_cfg):
+            cases.append(XO.gen_cfg(rng))
+        for k in range(n_agrad):
+            cases.append(XA.gen_agrad(rng))
+        for op in XA.API_OPS:
+            cases.append(XA.gen_regapi(rng, op))
+        for k in range(n_api):
+            cases.append(XA.gen_regapi(rng))
         return cases
 
     # ------------------------------------------------------------------
@@ -513,6 +566,15 @@ class C09(PropertyCheck):
         src3 = np.array(c["src"], dtype=np.int16).reshape(c["sshape"])
         if c["layout"] == "F":
             arr = np.asfortranarray(src3)
+        elif c["layout"] == "rev":          # negative strides on every axis
+            arr = np.ascontiguousarray(src3[::-1, ::-1, ::-1])[::-1, ::-1, ::-1]
+        elif c["layout"] == "perm":         # one memory segment, axes permuted (neither C nor F when 3 distinct sizes)
+            arr = np.ascontiguousarray(src3.transpose(1, 2, 0)).transpose(2, 0, 1)
+        elif c["layout"] == "view4d":       # a 3-D volume taken out of a Fortran-ordered 4-D series
+            big4 = np.zeros(tuple(c["sshape"]) + (2,), dtype=np.int16, order="F")
+            big4[..., 1] = src3
+            big4[..., 0] = 5
+            arr = big4[..., 1]
         elif c["layout"] == "strided":
             big = np.full([2 * s for s in c["sshape"]], 3, dtype=np.int16)
             big[::2, ::2, ::2] = src3
@@ -527,10 +589,14 @@ class C09(PropertyCheck):
         draws = []
         if mode == "rand":
             _, draws = draws_for(seed, len(src))
+        code = 0 if mode == "pv" else c.get("tricode", 1) if mode == "tri" else -seed
+        refuse = c.get("refuse")
+        if refuse:
+            return self._jh_refuse(c, refuse, H, big, arr, padded, T, code)
+
         def call():
             snap = Snapshot(arr=arr, padded=padded, T=T)
-            ret = lib().joint_histogram(H, ci, cj, arr.flat, padded, T,
-                                        0 if mode == "pv" else 1 if mode == "tri" else -seed)
+            ret = lib().joint_histogram(H, ci, cj, arr.flat, padded, T, code)
             return ret, H.copy(), guard_touched(big, ci * cj), snap.changed()
 
         if mode == "rand":      # a stale read can take the interpreter down: isolate
@@ -560,6 +626,38 @@ class C09(PropertyCheck):
         tags = ["jh", "mode=" + mode, "style=" + c["style"], "layout=" + c["layout"]]
         return {"lines": [line], "impl": [("hist", H.ravel().tolist(), 0.0)], "oracle": fail,
                 "nontrivial": bool(H.sum() > 0), "tags": tags, "mutated": mut}
+
+    def _jh_refuse(self, c, what, H, big, arr, padded, T, code):
+        """arrays that violate the kernel's stated assumptions: it must return -1 and write nothing"""
+        ci, cj = c["ci"], c["cj"]
+        Hn, Jn, Tn, An = H, padded, T, arr
+        if what == "J":
+            Jn = np.asfortranarray(padded)
+        elif what == "H":
+            wide = np.zeros((ci, 2 * cj))
+            wide[:] = 7.5
+            Hn = wide[:, ::2]
+        elif what == "T":
+            Tn = np.zeros((T.shape[0], 6))[:, ::2]
+            Tn[:] = T
+        else:
+            An = arr.astype(np.int32)
+        flags = [An.dtype == np.int16, bool(Jn.flags["C_CONTIGUOUS"]), bool(Hn.flags["C_CONTIGUOUS"]),
+                 bool(Tn.flags["C_CONTIGUOUS"])]
+        before = Hn.copy()
+        ret = lib().joint_histogram(Hn, ci, cj, An.flat, Jn, Tn, code)
+        fail = None
+        if all(flags):
+            obs = ("txt", "ok" if ret == 0 else "refused")    # degenerate shapes are contiguous both ways
+        else:
+            obs = ("txt", "refused" if ret == -1 else f"returned {ret}")
+            if ret == 0 and (guard_touched(big, ci * cj)):
+                fail = "joint_histogram accepted arrays it cannot index and wrote outside the histogram"
+            elif ret != 0 and not np.array_equal(Hn, before):
+                fail = "joint_histogram refused its arrays but modified the histogram"
+        line = "jhguard " + " ".join(str(int(f)) for f in flags)
+        return {"lines": [line], "impl": [obs], "oracle": fail, "nontrivial": True,
+                "tags": ["jh", "refuse=" + what, "guard->" + obs[1]], "mutated": None}
 
     def _l1(self, c):
         st = c["stride"]
@@ -609,6 +707,8 @@ class C09(PropertyCheck):
             return f"{name} {pmat(H)}", ("corr", float(value), bool(renorm))
         if name == "mi":
             return f"miargs {pmat(H)}", ("log", float(value), bool(renorm), H.ravel().tolist())
+        if name == "nmi":
+            return f"nmiargs {pmat(H)}", ("nmi", float(value))
         if name in ("slr", "pmi", "dpmi"):
             from scipy.ndimage import gaussian_filter
             if name == "slr":
@@ -845,6 +945,23 @@ class C09(PropertyCheck):
                 "tags": ["fov", obs[0]], "mutated": None}
 
     def _opt(self, c):
+        if "shape" not in c:        # cases of the first round (corpus)
+            return self._opt_v1(c)
+        return XO.run_opt(c, self._patch)
+
+    def _steep(self, c):
+        return XO.run_steep(c)
+
+    def _cfg(self, c):
+        return XO.run_cfg(c)
+
+    def _agrad(self, c):
+        return XA.run_agrad(c, self._patch)
+
+    def _regapi(self, c):
+        return XA.run_regapi(c, self._patch)
+
+    def _opt_v1(self, c):
         hr, sm = self._patch()
         from nipy.algorithms.registration.affine import Affine, Rigid, Similarity
         from nipy.core.image.image_spaces import make_xyz_image
@@ -882,6 +999,22 @@ class C09(PropertyCheck):
         kind = impl_obs[0]
         if model_out.startswith("bad-op"):
             return "model rejected the line (bad-op)"
+        if kind == "steep" or case["kind"] == "steep":
+            return XO.compare_steep(impl_obs, model_out)
+        if case["kind"] == "regapi":
+            return XA.compare_api(impl_obs, model_out)
+        if kind == "txt":
+            return None if model_out == impl_obs[1] else f"impl {impl_obs[1]!r} model {model_out!r}"
+        if kind == "nmi":
+            pj, pi, pr = (parse_rats(t) for t in (model_out + " ").split(" | "))
+            ent = lambda l: -sum(float(x) * math.log(max(float(x), TINY)) for x in l)
+            want = 2 * (1 - ent(pj) / max(ent(pi) + ent(pr), TINY))
+            return None if close(impl_obs[1], want, 1e-8, 1e-9) else f"impl={impl_obs[1]!r} model={want!r}"
+        if kind == "cfg":
+            return None if model_out == impl_obs[1] else f"impl {impl_obs[1]!r} model {model_out!r}"
+        if kind == "sign":
+            return None if close(impl_obs[1], Fraction(model_out), 1e-9, 1e-9) else \
+                f"similarity of the returned transform {impl_obs[1]!r} but minus the optimiser's final cost is {float(Fraction(model_out))!r}"
         if kind == "err":
             return None if model_out == impl_obs[1] else f"impl {impl_obs[1]} model {model_out[:80]}"
         if model_out.startswith("error"):
@@ -910,15 +1043,15 @@ class C09(PropertyCheck):
                 f"value impl={impl_obs[2]!r} model={float(Fraction(toks[4]))!r}"
         if kind == "corr":
             v, npts = parse_rats(model_out)
-            want = float(v)
+            want = sfloat(v)
             got = impl_obs[1]
             if impl_obs[2]:
                 # -n/2*log(1-rho2) is ill-conditioned near rho2 = 1: compare the correlations
-                if float(npts) == 0:
+                if sfloat(npts) == 0:
                     want = 0.0
                 elif math.isfinite(got):
-                    got = 1 - math.exp(-2 * got / float(npts))
-            if math.isnan(got) and float(v) > 1e300:
+                    got = 1 - math.exp(-2 * got / sfloat(npts))
+            if math.isnan(got) and sfloat(v) > 1e300:
                 return None
             return None if close(got, want, 1e-8, 1e-9) else f"impl={got!r} model={want!r}"
         if kind == "log":
@@ -958,7 +1091,11 @@ class C09(PropertyCheck):
         return "unknown observation kind"
 
     def shrink(self, case):
-        if case["kind"] == "jh":
+        if case["kind"] == "opt" and "shape" in case:
+            yield from XO.shrink_opt(case)
+        elif case["kind"] == "steep":
+            yield from XO.shrink_steep(case)
+        elif case["kind"] == "jh":
             n = len(case["src"])
 
             def keep(idx):
@@ -1001,7 +1138,14 @@ class C09(PropertyCheck):
                     c["mask"] = None if case["mask"] is None else case["mask"][:i] + case["mask"][i + 1:]
                     yield c
 
+    finding_keys = {"steepest-bracket-error":
+                    "optimize(optimizer='steepest') lets scipy.optimize.BracketError propagate when the similarity is "
+                    "flat at the first probes of the line search (start at the edge of / outside the overlap)"}
+
     def classify(self, case, failure):
+        if case.get("kind") == "opt" and case.get("optimizer") == "steepest" and \
+                "raised BracketError instead of returning a transform" in (failure or ""):
+            return "steepest-bracket-error"
         return None
 
 
